@@ -1,5 +1,6 @@
 import BlockModes.Lemmas.MemLoop
 import BlockModes.Lemmas.Cts
+import BlockModes.Lemmas.CtsEcb
 import BlockModes.Lemmas.Xor
 /-
   Lemmas/MemCts.lean — each checked, memory-level closure of `Impl/MemCts.lean` succeeds on every buffer of at
@@ -316,5 +317,578 @@ theorem cbcCs3Enc_ok (C : Cipher) (hC : C.Valid) (w : Nat) (iv : Bytes) (hiv : i
       exact ⟨io1, rfl, hout1⟩
   · simp only [htl, if_false]
     exact cbcStealMem_eq C hC io io1 hw hge _ ho1 ho2 ha _ hP htl
+
+/-! ### reading and writing the remainder `buf[mid..]` after the main loop -/
+
+theorem read_after (io io1 : IOBuf) (nb bs : Nat) (R : Bytes) (ha : After io io1 nb bs R) (off len : Nat)
+    (h1 : nb * bs ≤ off) (h2 : off + len ≤ io.len) : getIn? io1 off len = some (rng (src io) off len) := by
+  rw [getIn?_eq io1 _ _ (by rw [ha.len]; exact h2), rng_congr (src io1) (src io) off off len (ha.src off h1) (Nat.le_refl _)]
+
+theorem write_rem (io1 : IOBuf) (R X v1 v2 : Bytes) (hout : io1.out = R ++ X) (h : v1.length + v2.length = X.length) :
+    ((io1.setOut R.length v1).setOut (R.length + v1.length) v2).out = R ++ v1 ++ v2 := by
+  simp only [IOBuf.setOut, hout]
+  have hX : X = X.take v1.length ++ X.drop v1.length := (List.take_append_drop _ _).symm
+  have e1 : R ++ X = R ++ X.take v1.length ++ X.drop v1.length := by rw [List.append_assoc, ← hX]
+  rw [e1, setRng_mid _ _ _ _ _ rfl (by rw [List.length_take]; omega)]
+  have e2 : R ++ v1 ++ X.drop v1.length = (R ++ v1) ++ X.drop v1.length ++ [] := by simp
+  rw [e2, setRng_mid _ _ _ _ _ (by simp) (by rw [List.length_drop]; omega)]
+  simp
+
+/-- the un-stealing step of CBC-CS1 decrypt on `buf[mid..]`, `mid = nb·bs`, `|buf| = mid + bs + n`, `0 < n ≤ bs`. -/
+theorem cbcCs1DecRem_eq (C : Cipher) (hC : C.Valid) (io io1 : IOBuf) (hw : WF io) (nb n : Nat) (R : Bytes)
+    (ha : After io io1 nb C.bs R) (hlen : io.len = nb * C.bs + C.bs + n) (hn : n ≤ C.bs)
+    (iv : Bytes) (hiv : iv.length = C.bs) :
+    ∃ io2, cbcCs1DecRem C iv io1 (nb * C.bs) = some io2 ∧
+      io2.out = R ++ cbcCs1DecTail C iv ((src io).drop (nb * C.bs)) := by
+  have hbs := hC.bs_pos
+  have hsl := src_length io hw
+  have hol : io.out.length = io.len := rfl
+  generalize hm : src io = m at *
+  have hremL : (m.drop (nb * C.bs)).length = C.bs + n := by rw [List.length_drop, hsl]; omega
+  unfold cbcCs1DecRem cbcCs1DecTail
+  dsimp only
+  rw [ha.len, show io.len - nb * C.bs = C.bs + n by omega, sub?_eq _ _ (by omega), Nat.add_sub_cancel_left]
+  dsimp only
+  rw [read_after io io1 nb C.bs R ha _ _ (Nat.le_refl _) (by omega), hm]
+  dsimp only
+  have hc : ¬ (n > C.bs + n ∨ C.bs + n - n ≠ C.bs) := by omega
+  rw [if_neg hc, read_after io io1 nb C.bs R ha _ _ (by omega) (by omega), hm]
+  dsimp only
+  -- the two blocks read
+  have hb1 : rng m (nb * C.bs) C.bs = (m.drop (nb * C.bs)).take C.bs := rfl
+  have hb2 : rng m (nb * C.bs + n) C.bs = (m.drop (nb * C.bs)).drop n := by
+    simp only [rng, ← List.drop_drop]
+    exact List.take_of_length_le (by rw [List.length_drop, hremL]; omega)
+  rw [hb1, hb2, hremL, Nat.add_sub_cancel_left]
+  generalize hB1 : (m.drop (nb * C.bs)).take C.bs = B1
+  generalize hB2 : (m.drop (nb * C.bs)).drop n = B2
+  have hB1l : B1.length = C.bs := by rw [← hB1, List.length_take, hremL]; omega
+  have hB2l : B2.length = C.bs := by rw [← hB2, List.length_drop, hremL]; omega
+  have hd2 : (C.dec B2).length = C.bs := hC.dec_len _ hB2l
+  rw [slice?_eq _ _ _ (by omega) (Nat.le_refl _), hd2]
+  dsimp only
+  have hsl2 : ((C.dec B2).drop n).take (C.bs - n) = (C.dec B2).drop n :=
+    List.take_of_length_le (by rw [List.length_drop, hd2]; omega)
+  rw [hsl2, blockSet?_eq _ _ _ _ (by omega) (Nat.le_refl _) (by rw [List.length_drop, hd2, hB1l])]
+  dsimp only
+  have hset : setRng B1 n ((C.dec B2).drop n) = B1.take n ++ (C.dec B2).drop n := by
+    simp only [setRng]
+    have : B1.drop (n + ((C.dec B2).drop n).length) = [] :=
+      List.drop_of_length_le (by rw [List.length_drop, hd2, hB1l]; omega)
+    rw [this, List.append_nil]
+  rw [hset]
+  generalize hN1 : B1.take n ++ (C.dec B2).drop n = N1
+  have hN1l : N1.length = C.bs := by rw [← hN1, List.length_append, List.length_take, List.length_drop, hd2, hB1l]; omega
+  have ho1 : (xorB (C.dec N1) iv).length = C.bs := by simp [hC.dec_len _ hN1l, hiv]
+  rw [setOut?_eq io1 _ _ _ (by rw [ha.len]; omega) ho1]
+  dsimp only
+  have hx2 : (xorB (C.dec B2) N1).length = C.bs := by simp [hd2, hN1l]
+  rw [slice?_eq _ 0 n (Nat.zero_le _) (by rw [hx2]; exact hn)]
+  dsimp only
+  have hl2 : (io1.setOut (nb * C.bs) (xorB (C.dec N1) iv)).len = io.len := by
+    rw [setOut_len _ _ _ (by rw [ha.len, ho1]; omega), ha.len]
+  rw [setOut?_eq _ _ _ _ (by rw [hl2]; omega) (by simp [hx2]; omega)]
+  refine ⟨_, rfl, ?_⟩
+  have := write_rem io1 R (io.out.drop (nb * C.bs)) (xorB (C.dec N1) iv) (((xorB (C.dec B2) N1).drop 0).take (n - 0))
+    ha.out (by simp [ho1, hx2]; omega)
+  rw [ha.rlen, ho1] at this
+  rw [this]
+  simp [List.append_assoc]
+
+/-- the un-stealing step of CBC-CS2 / CBC-CS3 decrypt on `buf[mid..]`, `mid = nb·bs`, `|buf| = mid + bs + n`, `n ≤ bs`. -/
+theorem cbcCs2DecRem_eq (C : Cipher) (hC : C.Valid) (io io1 : IOBuf) (hw : WF io) (nb n : Nat) (R : Bytes)
+    (ha : After io io1 nb C.bs R) (hlen : io.len = nb * C.bs + C.bs + n) (hn : n ≤ C.bs)
+    (iv : Bytes) (hiv : iv.length = C.bs) :
+    ∃ io2, cbcCs2DecRem C iv io1 (nb * C.bs) = some io2 ∧
+      io2.out = R ++ cbcCs2DecTail C iv ((src io).drop (nb * C.bs)) := by
+  have hbs := hC.bs_pos
+  have hsl := src_length io hw
+  have hol : io.out.length = io.len := rfl
+  generalize hm : src io = m at *
+  have hremL : (m.drop (nb * C.bs)).length = C.bs + n := by rw [List.length_drop, hsl]; omega
+  unfold cbcCs2DecRem cbcCs2DecTail
+  dsimp only
+  rw [ha.len, show io.len - nb * C.bs = C.bs + n by omega, sub?_eq _ _ (by omega), Nat.add_sub_cancel_left]
+  dsimp only
+  rw [read_after io io1 nb C.bs R ha _ _ (Nat.le_refl _) (by omega), hm]
+  dsimp only
+  have hc : ¬ (C.bs > C.bs + n) := by omega
+  rw [if_neg hc, read_after io io1 nb C.bs R ha _ _ (by omega) (by omega), hm]
+  dsimp only
+  have hb1 : rng m (nb * C.bs) C.bs = (m.drop (nb * C.bs)).take C.bs := rfl
+  have hb2 : rng m (nb * C.bs + C.bs) n = ((m.drop (nb * C.bs)).drop C.bs).take n := by
+    simp only [rng, List.drop_drop]
+  rw [hb1, hb2, hremL, Nat.add_sub_cancel_left]
+  generalize hB1 : (m.drop (nb * C.bs)).take C.bs = B1
+  generalize hT : ((m.drop (nb * C.bs)).drop C.bs).take n = T
+  have hB1l : B1.length = C.bs := by rw [← hB1, List.length_take, hremL]; omega
+  have hTl : T.length = n := by rw [← hT, List.length_take, List.length_drop, hremL]; omega
+  have hd1 : (C.dec B1).length = C.bs := hC.dec_len _ hB1l
+  rw [blockSet?_eq _ _ _ _ (Nat.zero_le _) (by simp; exact hn) (by rw [hTl]; omega)]
+  dsimp only
+  rw [hd1, slice?_eq _ _ _ hn (by rw [hd1]; exact Nat.le_refl _)]
+  dsimp only
+  have hz : setRng (zeros C.bs) 0 T = T ++ zeros (C.bs - n) := by
+    simp [setRng, zeros, hTl]
+  have hsl1 : ((C.dec B1).drop n).take (C.bs - n) = (C.dec B1).drop n :=
+    List.take_of_length_le (by rw [List.length_drop, hd1]; omega)
+  rw [hz, hsl1]
+  have hzl : (T ++ zeros (C.bs - n)).length = C.bs := by simp [hTl]; omega
+  rw [blockSet?_eq _ _ _ _ (by rw [hzl]; exact hn) (Nat.le_refl _) (by rw [List.length_drop, hd1, hzl])]
+  dsimp only
+  have hset : setRng (T ++ zeros (C.bs - n)) n ((C.dec B1).drop n) = T ++ (C.dec B1).drop n := by
+    simp only [setRng]
+    have h1 : (T ++ zeros (C.bs - n)).take n = T := List.take_left' hTl
+    have h2 : (T ++ zeros (C.bs - n)).drop (n + ((C.dec B1).drop n).length) = [] :=
+      List.drop_of_length_le (by rw [List.length_drop, hd1, hzl]; omega)
+    rw [h1, h2, List.append_nil]
+  rw [hset]
+  generalize hN2 : T ++ (C.dec B1).drop n = N2
+  have hN2l : N2.length = C.bs := by rw [← hN2, List.length_append, List.length_drop, hd1, hTl]; omega
+  have ho2 : (xorB (C.dec N2) iv).length = C.bs := by simp [hC.dec_len _ hN2l, hiv]
+  rw [setOut?_eq io1 _ _ _ (by rw [ha.len]; omega) ho2]
+  dsimp only
+  have hx1 : (xorB (C.dec B1) N2).length = C.bs := by simp [hd1, hN2l]
+  rw [slice?_eq _ 0 n (Nat.zero_le _) (by rw [hx1]; exact hn)]
+  dsimp only
+  have hl2 : (io1.setOut (nb * C.bs) (xorB (C.dec N2) iv)).len = io.len := by
+    rw [setOut_len _ _ _ (by rw [ha.len, ho2]; omega), ha.len]
+  rw [setOut?_eq _ _ _ _ (by rw [hl2]; omega) (by simp [hx1]; omega)]
+  refine ⟨_, rfl, ?_⟩
+  have := write_rem io1 R (io.out.drop (nb * C.bs)) (xorB (C.dec N2) iv) (((xorB (C.dec B1) N2).drop 0).take (n - 0))
+    ha.out (by simp [ho2, hx1]; omega)
+  rw [ha.rlen, ho2] at this
+  rw [this]
+  simp [List.append_assoc]
+
+/-! ### the CBC decrypt closures -/
+
+theorem cbcDecPar_fold (C : Cipher) : ∀ s chunk, chunk.length = w → cbcDecPar C s chunk = foldBlocks (cbcDecBlock C) s chunk :=
+  fun s ch _ => Thm.C02.cbc_decPar_eq_fold C ch s
+
+/-- the main loop of the CBC decrypt closures over the first `nb ≤ k` blocks. -/
+theorem cbcDec_main (C : Cipher) (hC : C.Valid) (w nb : Nat) (iv : Bytes) (hiv : iv.length = C.bs)
+    (io : IOBuf) (hw : WF io) (hnb : nb ≤ io.len / C.bs) :
+    ∃ io1, memCbcDec C w nb 0 iv io = some (io1, (Cts.cbcDec C w iv ((chunks C.bs (src io)).take nb)).2) ∧
+      After io io1 nb C.bs (Cts.cbcDec C w iv ((chunks C.bs (src io)).take nb)).1.flatten ∧
+      (Cts.cbcDec C w iv ((chunks C.bs (src io)).take nb)).2.length = C.bs := by
+  have hbs := hC.bs_pos
+  have hle : nb * C.bs ≤ io.len := by
+    have := Nat.mul_le_mul_right C.bs hnb
+    have h2 := Nat.div_mul_le_self io.len C.bs
+    omega
+  obtain ⟨io1, h1, ha, hP⟩ := memBlocks_after _ w C.bs hbs (cbcDecBlock C) (cbcDecPar C) (cbcDec_stepOk C hC)
+    (cbcDecPar_fold C) nb iv io hiv hw hle
+  rw [blocksAt_prefix (src io) C.bs hbs nb (by rw [src_length io hw]; exact hnb)] at h1 ha hP
+  have hv : Cts.cbcDec C w iv ((chunks C.bs (src io)).take nb)
+      = foldBlocks (cbcDecBlock C) iv ((chunks C.bs (src io)).take nb) := by
+    unfold Cts.cbcDec
+    exact blocksCtx_eq_fold w _ _ (cbcDecPar_fold C) iv _
+  rw [hv]
+  exact ⟨io1, h1, ha, hP⟩
+
+theorem cbcCs1Dec_ok (C : Cipher) (hC : C.Valid) (w : Nat) (iv : Bytes) (hiv : iv.length = C.bs)
+    (io : IOBuf) (hw : WF io) (hge : C.bs ≤ io.len) :
+    ∃ io', MemCts.cbcCs1Dec C w iv io = some io' ∧ io'.out = Cts.cbcCs1Dec C w iv (src io) := by
+  have hbs := hC.bs_pos
+  have hL := len_split io.len C.bs
+  have hk := k_pos io.len C.bs hbs hge
+  have hmod := Nat.mod_lt io.len hbs
+  have hol : io.out.length = io.len := rfl
+  have hsl := src_length io hw
+  obtain ⟨ht1, ht2⟩ := tail_whole io hw C.bs hbs
+  have hcl : (chunks C.bs (src io)).length = io.len / C.bs := by rw [chunks_length C.bs hbs, hsl]
+  unfold MemCts.cbcCs1Dec Cts.cbcCs1Dec
+  simp only [ht2, hcl, hsl]
+  by_cases htl : io.len % C.bs = 0
+  · simp only [htl, ne_eq, not_true_eq_false, if_false, if_true]
+    obtain ⟨io1, h1, ha, _⟩ := cbcDec_main C hC w (io.len / C.bs) iv hiv io hw (Nat.le_refl _)
+    rw [← hcl, List.take_length] at h1 ha
+    rw [hcl] at h1
+    simp only [h1]
+    refine ⟨io1, rfl, ?_⟩
+    rw [ha.out, hcl, List.drop_of_length_le (by omega), List.append_nil]
+  · simp only [htl, ne_eq, not_false_eq_true, if_true, if_false, sub?_eq _ _ hk]
+    obtain ⟨io1, h1, ha, hP⟩ := cbcDec_main C hC w (io.len / C.bs - 1) iv hiv io hw (by omega)
+    have hkb : (io.len / C.bs - 1) * C.bs + C.bs = io.len / C.bs * C.bs := by
+      obtain ⟨j, hj⟩ : ∃ j, io.len / C.bs = j + 1 := ⟨io.len / C.bs - 1, by omega⟩
+      rw [hj, Nat.add_sub_cancel, Nat.add_mul, Nat.one_mul]
+    have hmid : io.len - (C.bs + io.len % C.bs) = (io.len / C.bs - 1) * C.bs := by omega
+    simp only [h1, ha.len, sub?_eq _ _ (show C.bs + io.len % C.bs ≤ io.len by omega), hmid]
+    exact cbcCs1DecRem_eq C hC io io1 hw _ (io.len % C.bs) _ ha (by omega) (by omega) _ hP
+
+theorem cbcCs2Dec_ok (C : Cipher) (hC : C.Valid) (w : Nat) (iv : Bytes) (hiv : iv.length = C.bs)
+    (io : IOBuf) (hw : WF io) (hge : C.bs ≤ io.len) :
+    ∃ io', MemCts.cbcCs2Dec C w iv io = some io' ∧ io'.out = Cts.cbcCs2Dec C w iv (src io) := by
+  have hbs := hC.bs_pos
+  have hL := len_split io.len C.bs
+  have hk := k_pos io.len C.bs hbs hge
+  have hmod := Nat.mod_lt io.len hbs
+  have hol : io.out.length = io.len := rfl
+  have hsl := src_length io hw
+  obtain ⟨ht1, ht2⟩ := tail_whole io hw C.bs hbs
+  have hcl : (chunks C.bs (src io)).length = io.len / C.bs := by rw [chunks_length C.bs hbs, hsl]
+  unfold MemCts.cbcCs2Dec Cts.cbcCs2Dec
+  simp only [ht2, hcl, hsl]
+  by_cases htl : io.len % C.bs = 0
+  · simp only [htl, ne_eq, not_true_eq_false, if_false, if_true]
+    obtain ⟨io1, h1, ha, _⟩ := cbcDec_main C hC w (io.len / C.bs) iv hiv io hw (Nat.le_refl _)
+    rw [← hcl, List.take_length] at h1 ha
+    rw [hcl] at h1
+    simp only [h1]
+    refine ⟨io1, rfl, ?_⟩
+    rw [ha.out, hcl, List.drop_of_length_le (by omega), List.append_nil]
+  · simp only [htl, ne_eq, not_false_eq_true, if_true, if_false, sub?_eq _ _ hk]
+    obtain ⟨io1, h1, ha, hP⟩ := cbcDec_main C hC w (io.len / C.bs - 1) iv hiv io hw (by omega)
+    have hkb : (io.len / C.bs - 1) * C.bs + C.bs = io.len / C.bs * C.bs := by
+      obtain ⟨j, hj⟩ : ∃ j, io.len / C.bs = j + 1 := ⟨io.len / C.bs - 1, by omega⟩
+      rw [hj, Nat.add_sub_cancel, Nat.add_mul, Nat.one_mul]
+    have hmid : io.len - (C.bs + io.len % C.bs) = (io.len / C.bs - 1) * C.bs := by omega
+    simp only [h1, ha.len, sub?_eq _ _ (show C.bs + io.len % C.bs ≤ io.len by omega), hmid]
+    exact cbcCs2DecRem_eq C hC io io1 hw _ (io.len % C.bs) _ ha (by omega) (by omega) _ hP
+
+/-- `div_ceil(bs) - 2` main blocks, then `bs + n` bytes with `0 < n ≤ bs`. -/
+theorem ceil_split (L bs : Nat) (hbs : 0 < bs) (h : bs < L) :
+    ∃ mb n, (L + bs - 1) / bs - 2 = mb ∧ L = mb * bs + bs + n ∧ 0 < n ∧ n ≤ bs ∧ mb ≤ L / bs := by
+  have hL := len_split L bs
+  have hmod := Nat.mod_lt L hbs
+  have hk : 1 ≤ L / bs := k_pos L bs hbs (by omega)
+  by_cases ht : L % bs = 0
+  · -- L = k·bs, k ≥ 2
+    have hk2 : 2 ≤ L / bs := by
+      apply Classical.byContradiction; intro hc
+      have : L / bs = 1 := by omega
+      rw [this] at hL; omega
+    refine ⟨L / bs - 2, bs, ?_, ?_, hbs, Nat.le_refl _, by omega⟩
+    · have e : L + bs - 1 = (bs - 1) + (L / bs) * bs := by omega
+      rw [e, Nat.add_mul_div_right _ _ hbs, Nat.div_eq_of_lt (by omega)]; omega
+    · obtain ⟨j, hj⟩ : ∃ j, L / bs = j + 2 := ⟨L / bs - 2, by omega⟩
+      rw [hj] at hL ⊢
+      rw [Nat.add_sub_cancel]
+      rw [Nat.add_mul] at hL; omega
+  · refine ⟨L / bs - 1, L % bs, ?_, ?_, by omega, by omega, by omega⟩
+    · have e : L + bs - 1 = (L % bs - 1) + (L / bs + 1) * bs := by rw [Nat.add_mul]; omega
+      rw [e, Nat.add_mul_div_right _ _ hbs, Nat.div_eq_of_lt (by omega)]; omega
+    · obtain ⟨j, hj⟩ : ∃ j, L / bs = j + 1 := ⟨L / bs - 1, by omega⟩
+      rw [hj] at hL ⊢
+      rw [Nat.add_sub_cancel]
+      rw [Nat.add_mul] at hL; omega
+
+theorem cbcCs3Dec_ok (C : Cipher) (hC : C.Valid) (w : Nat) (iv : Bytes) (hiv : iv.length = C.bs)
+    (io : IOBuf) (hw : WF io) (hge : C.bs ≤ io.len) :
+    ∃ io', MemCts.cbcCs3Dec C w iv io = some io' ∧ io'.out = Cts.cbcCs3Dec false C w iv (src io) := by
+  have hbs := hC.bs_pos
+  have hol : io.out.length = io.len := rfl
+  have hsl := src_length io hw
+  have hcl : (chunks C.bs (src io)).length = io.len / C.bs := by rw [chunks_length C.bs hbs, hsl]
+  unfold MemCts.cbcCs3Dec Cts.cbcCs3Dec
+  simp only [hsl, Bool.not_false, true_and]
+  by_cases h1b : io.len = C.bs
+  · simp only [h1b, if_true]
+    obtain ⟨io1, h1, ha, _⟩ := cbcDec_main C hC w (io.len / C.bs) iv hiv io hw (Nat.le_refl _)
+    rw [← hcl, List.take_length] at h1 ha
+    rw [hcl, h1b] at h1
+    simp only [h1, Option.map_some]
+    refine ⟨io1, rfl, ?_⟩
+    rw [ha.out, hcl, List.drop_of_length_le (by rw [h1b, Nat.div_self hbs]; omega), List.append_nil]
+  · simp only [h1b, if_false]
+    obtain ⟨mb, n, hmb, hLn, hn0, hn, hmbk⟩ := ceil_split io.len C.bs hbs (by omega)
+    have hcomm : C.bs * mb = mb * C.bs := Nat.mul_comm _ _
+    simp only [hmb, hcomm, Nat.mul_mod_left, Nat.mul_div_cancel _ hbs]
+    have hc1 : ¬ mb * C.bs > io.len := by omega
+    simp only [hc1, if_false, ne_eq, not_true_eq_false]
+    obtain ⟨io1, h1, ha, hP⟩ := cbcDec_main C hC w mb iv hiv io hw hmbk
+    rw [Spec.chunks_take_blocks C.bs hbs (src io) mb (by rw [hcl]; exact hmbk)]
+    simp only [h1]
+    exact cbcCs2DecRem_eq C hC io io1 hw mb n _ ha hLn hn _ hP
+
+/-! ### ECB -/
+
+/-- the main loop of the ECB closures over the first `nb ≤ k` blocks (`f` = E or D). -/
+theorem ecb_main (f : Bytes → Bytes) (bs : Nat) (hbs : 0 < bs) (hf : ∀ x, x.length = bs → (f x).length = bs)
+    (w nb : Nat) (io : IOBuf) (hw : WF io) (hnb : nb ≤ io.len / bs) :
+    ∃ io1, memEcb f w bs nb 0 io = some io1 ∧ After io io1 nb bs (((chunks bs (src io)).take nb).map f).flatten := by
+  have hle : nb * bs ≤ io.len := by
+    have := Nat.mul_le_mul_right bs hnb
+    have h2 := Nat.div_mul_le_self io.len bs
+    omega
+  obtain ⟨io1, h1, ha, _⟩ := memBlocks_after _ w bs hbs (fun (_ : Unit) b => (f b, ())) (fun _ ch => (ch.map f, ()))
+    (unit_stepOk f bs hf) (fun s ch _ => by cases s; rw [foldBlocks_unit_map]) nb () io trivial hw hle
+  rw [blocksAt_prefix (src io) bs hbs nb (by rw [src_length io hw]; exact hnb), foldBlocks_unit_map] at h1 ha
+  exact ⟨io1, by simp only [memEcb, h1, Option.map_some], ha⟩
+
+/-- the last output block after the main loop -/
+theorem last_block_after (io io1 : IOBuf) (bs : Nat) (outs : List Bytes) (houts : ∀ b ∈ outs, b.length = bs)
+    (hk : 1 ≤ outs.length) (ha : After io io1 outs.length bs outs.flatten) :
+    io1.out = outs.dropLast.flatten ++ outs.getLastD [] ++ io.out.drop (outs.length * bs) ∧
+    outs.dropLast.flatten.length = (outs.length - 1) * bs ∧ (outs.getLastD []).length = bs ∧
+    (outs.length - 1) * bs + bs = outs.length * bs := by
+  refine ⟨by rw [ha.out, flatten_split_last outs hk], ?_, ?_, ?_⟩
+  · rw [flatten_length_of_allLen bs _ (fun b hb => houts b (List.dropLast_subset outs hb)), List.length_dropLast]
+  · rw [← Spec.getD_last outs [] (by omega)]; exact houts _ (Thm.C05aux.getD_mem _ _ _ (by omega))
+  · obtain ⟨j, hj⟩ : ∃ j, outs.length = j + 1 := ⟨outs.length - 1, by omega⟩
+    rw [hj, Nat.add_sub_cancel, Nat.add_mul, Nat.one_mul]
+
+/-- `block[..n] = tail; block[n..] = last_block[n..]` -/
+theorem build_block (bs : Nat) (tail last : Bytes) (ht : tail.length ≤ bs) (hl : last.length = bs) :
+    slice? last tail.length last.length = some (last.drop tail.length) ∧
+    blockSet? (padTail bs tail) tail.length (padTail bs tail).length (last.drop tail.length)
+      = some (tail ++ last.drop tail.length) := by
+  have hpl : (padTail bs tail).length = bs := by simp [padTail]; omega
+  constructor
+  · rw [slice?_eq _ _ _ (by omega) (Nat.le_refl _)]
+    congr 1
+    exact List.take_of_length_le (by rw [List.length_drop]; exact Nat.le_refl _)
+  · rw [blockSet?_eq _ _ _ _ (by omega) (Nat.le_refl _) (by rw [List.length_drop, hpl, hl])]
+    congr 1
+    simp only [setRng, padTail]
+    have h1 : (tail ++ zeros (bs - tail.length)).take tail.length = tail := List.take_left' rfl
+    have h2 : (tail ++ zeros (bs - tail.length)).drop (tail.length + (last.drop tail.length).length) = [] :=
+      List.drop_of_length_le (by simp [hl] <;> omega)
+    rw [h1, h2, List.append_nil]
+
+theorem ecbCs1Enc_ok (C : Cipher) (hC : C.Valid) (w : Nat) (io : IOBuf) (hw : WF io) (hge : C.bs ≤ io.len) :
+    ∃ io', MemCts.ecbCs1Enc C w io = some io' ∧ io'.out = Cts.ecbCs1Enc C w (src io) := by
+  have hbs := hC.bs_pos
+  have hL := len_split io.len C.bs
+  have hk := k_pos io.len C.bs hbs hge
+  have hmod := Nat.mod_lt io.len hbs
+  have hol : io.out.length = io.len := rfl
+  have hsl := src_length io hw
+  obtain ⟨ht1, ht2⟩ := tail_whole io hw C.bs hbs
+  have hcl : (chunks C.bs (src io)).length = io.len / C.bs := by rw [chunks_length C.bs hbs, hsl]
+  obtain ⟨io1, h1, ha⟩ := ecb_main C.enc C.bs hbs hC.enc_len w (io.len / C.bs) io hw (Nat.le_refl _)
+  rw [← hcl, List.take_length, hcl] at ha
+  unfold MemCts.ecbCs1Enc Cts.ecbCs1Enc
+  simp only [h1, ht2, hsl, Thm.C05aux.ecbEnc_map]
+  by_cases htl : io.len % C.bs = 0
+  · simp only [htl, if_true]
+    refine ⟨io1, rfl, ?_⟩
+    rw [ha.out, List.drop_of_length_le (by omega), List.append_nil]
+  · simp only [htl, if_false, sub?_eq _ _ hk]
+    generalize houts : (chunks C.bs (src io)).map C.enc = outs at *
+    have houtsl : outs.length = io.len / C.bs := by rw [← houts, List.length_map, hcl]
+    have hall : ∀ b ∈ outs, b.length = C.bs := by
+      rw [← houts]; exact Thm.C05aux.map_enc_allLen C hC _ (chunks_allLen C.bs hbs _)
+    rw [← houtsl] at ha
+    obtain ⟨hout1, hA, hB, hkb⟩ := last_block_after io io1 C.bs outs hall (by omega) ha
+    rw [houtsl] at ha hout1 hA hkb
+    rw [getOut?_eq io1 _ _ (by rw [ha.len]; omega)]
+    try dsimp only
+    rw [hout1, rng_mid _ _ _ _ _ hA.symm hB.symm]
+    rw [padFromTail_eq io io1 hw C.bs hbs _ _ ha (Nat.le_refl _)]
+    try dsimp only
+    obtain ⟨hs1, hs2⟩ := build_block C.bs (chunksTail C.bs (src io)) (outs.getLastD []) (by omega) hB
+    rw [ht2] at hs1 hs2
+    rw [hs1]; try dsimp only
+    rw [hs2]; try dsimp only
+    have hbl : (C.enc (chunksTail C.bs (src io) ++ (outs.getLastD []).drop (io.len % C.bs))).length = C.bs :=
+      hC.enc_len _ (by rw [List.length_append, List.length_drop, ht2, hB]; omega)
+    rw [hbl, ha.len, sub?_eq _ _ hge]
+    try dsimp only
+    rw [setOut?_eq io1 _ _ _ (by rw [ha.len]; omega) (by rw [hbl]; omega)]
+    refine ⟨_, rfl, ?_⟩
+    simp only [IOBuf.setOut, setRng, ha.out]
+    rw [List.take_append_of_le_length (by rw [ha.rlen]; omega)]
+    have hd : (outs.flatten ++ io.out.drop (io.len / C.bs * C.bs)).drop (io.len - C.bs +
+        (C.enc (chunksTail C.bs (src io) ++ (outs.getLastD []).drop (io.len % C.bs))).length) = [] :=
+      List.drop_of_length_le (by simp only [List.length_append, List.length_drop, ha.rlen, hbl]; omega)
+    rw [hd, List.append_nil]
+
+/-- the un-stealing step of ECB-CS1 decrypt on `buf[mid..]`. -/
+theorem ecbCs1DecRem_eq (C : Cipher) (hC : C.Valid) (io io1 : IOBuf) (hw : WF io) (nb n : Nat) (R : Bytes)
+    (ha : After io io1 nb C.bs R) (hlen : io.len = nb * C.bs + C.bs + n) (hn : n ≤ C.bs) :
+    ∃ io2, ecbCs1DecRem C io1 (nb * C.bs) = some io2 ∧
+      io2.out = R ++ ecbCs1DecTail C ((src io).drop (nb * C.bs)) := by
+  have hbs := hC.bs_pos
+  have hsl := src_length io hw
+  have hol : io.out.length = io.len := rfl
+  generalize hm : src io = m at *
+  have hremL : (m.drop (nb * C.bs)).length = C.bs + n := by rw [List.length_drop, hsl]; omega
+  unfold ecbCs1DecRem ecbCs1DecTail
+  dsimp only
+  rw [ha.len, show io.len - nb * C.bs = C.bs + n by omega, sub?_eq _ _ (by omega), Nat.add_sub_cancel_left]
+  dsimp only
+  rw [read_after io io1 nb C.bs R ha _ _ (Nat.le_refl _) (by omega), hm]
+  dsimp only
+  have hc : ¬ (n > C.bs + n ∨ C.bs + n - n ≠ C.bs) := by omega
+  rw [if_neg hc, read_after io io1 nb C.bs R ha _ _ (by omega) (by omega), hm]
+  dsimp only
+  have hb1 : rng m (nb * C.bs) C.bs = (m.drop (nb * C.bs)).take C.bs := rfl
+  have hb2 : rng m (nb * C.bs + n) C.bs = (m.drop (nb * C.bs)).drop n := by
+    simp only [rng, ← List.drop_drop]
+    exact List.take_of_length_le (by rw [List.length_drop, hremL]; omega)
+  rw [hb1, hb2, hremL, Nat.add_sub_cancel_left]
+  generalize hB1 : (m.drop (nb * C.bs)).take C.bs = B1
+  generalize hB2 : (m.drop (nb * C.bs)).drop n = B2
+  have hB1l : B1.length = C.bs := by rw [← hB1, List.length_take, hremL]; omega
+  have hB2l : B2.length = C.bs := by rw [← hB2, List.length_drop, hremL]; omega
+  have hd2 : (C.dec B2).length = C.bs := hC.dec_len _ hB2l
+  rw [slice?_eq _ _ _ (by omega) (Nat.le_refl _), hd2]
+  dsimp only
+  have hsl2 : ((C.dec B2).drop n).take (C.bs - n) = (C.dec B2).drop n :=
+    List.take_of_length_le (by rw [List.length_drop, hd2]; omega)
+  rw [hsl2, blockSet?_eq _ _ _ _ (by omega) (Nat.le_refl _) (by rw [List.length_drop, hd2, hB1l])]
+  dsimp only
+  have hset : setRng B1 n ((C.dec B2).drop n) = B1.take n ++ (C.dec B2).drop n := by
+    simp only [setRng]
+    have : B1.drop (n + ((C.dec B2).drop n).length) = [] :=
+      List.drop_of_length_le (by rw [List.length_drop, hd2, hB1l]; omega)
+    rw [this, List.append_nil]
+  rw [hset]
+  generalize hN1 : B1.take n ++ (C.dec B2).drop n = N1
+  have hN1l : N1.length = C.bs := by rw [← hN1, List.length_append, List.length_take, List.length_drop, hd2, hB1l]; omega
+  have ho1 : (C.dec N1).length = C.bs := hC.dec_len _ hN1l
+  rw [setOut?_eq io1 _ _ _ (by rw [ha.len]; omega) ho1]
+  dsimp only
+  rw [slice?_eq _ 0 n (Nat.zero_le _) (by rw [hd2]; exact hn)]
+  dsimp only
+  have hl2 : (io1.setOut (nb * C.bs) (C.dec N1)).len = io.len := by
+    rw [setOut_len _ _ _ (by rw [ha.len, ho1]; omega), ha.len]
+  rw [setOut?_eq _ _ _ _ (by rw [hl2]; omega) (by simp [hd2]; omega)]
+  refine ⟨_, rfl, ?_⟩
+  have := write_rem io1 R (io.out.drop (nb * C.bs)) (C.dec N1) (((C.dec B2).drop 0).take (n - 0))
+    ha.out (by simp [ho1, hd2]; omega)
+  rw [ha.rlen, ho1] at this
+  rw [this]
+  simp [List.append_assoc]
+
+theorem ecbCs1Dec_ok (C : Cipher) (hC : C.Valid) (w : Nat) (io : IOBuf) (hw : WF io) (hge : C.bs ≤ io.len) :
+    ∃ io', MemCts.ecbCs1Dec C w io = some io' ∧ io'.out = Cts.ecbCs1Dec C w (src io) := by
+  have hbs := hC.bs_pos
+  have hL := len_split io.len C.bs
+  have hk := k_pos io.len C.bs hbs hge
+  have hmod := Nat.mod_lt io.len hbs
+  have hol : io.out.length = io.len := rfl
+  have hsl := src_length io hw
+  obtain ⟨ht1, ht2⟩ := tail_whole io hw C.bs hbs
+  have hcl : (chunks C.bs (src io)).length = io.len / C.bs := by rw [chunks_length C.bs hbs, hsl]
+  unfold MemCts.ecbCs1Dec Cts.ecbCs1Dec
+  simp only [ht2, hcl, hsl, Thm.C05aux.ecbDec_map]
+  by_cases htl : io.len % C.bs = 0
+  · simp only [htl, ne_eq, not_true_eq_false, if_false, if_true]
+    obtain ⟨io1, h1, ha⟩ := ecb_main C.dec C.bs hbs hC.dec_len w (io.len / C.bs) io hw (Nat.le_refl _)
+    rw [← hcl, List.take_length, hcl] at ha
+    simp only [h1]
+    refine ⟨io1, rfl, ?_⟩
+    rw [ha.out, List.drop_of_length_le (by omega), List.append_nil]
+  · simp only [htl, ne_eq, not_false_eq_true, if_true, if_false, sub?_eq _ _ hk]
+    obtain ⟨io1, h1, ha⟩ := ecb_main C.dec C.bs hbs hC.dec_len w (io.len / C.bs - 1) io hw (by omega)
+    have hkb : (io.len / C.bs - 1) * C.bs + C.bs = io.len / C.bs * C.bs := by
+      obtain ⟨j, hj⟩ : ∃ j, io.len / C.bs = j + 1 := ⟨io.len / C.bs - 1, by omega⟩
+      rw [hj, Nat.add_sub_cancel, Nat.add_mul, Nat.one_mul]
+    have hmid : io.len - (C.bs + io.len % C.bs) = (io.len / C.bs - 1) * C.bs := by omega
+    simp only [h1, ha.len, sub?_eq _ _ (show C.bs + io.len % C.bs ≤ io.len by omega), hmid]
+    exact ecbCs1DecRem_eq C hC io io1 hw _ (io.len % C.bs) _ ha (by omega) (by omega)
+
+/-- the stealing / un-stealing step shared by ECB-CS2 and ECB-CS3 after the main loop (`f` = E or D). -/
+theorem ecbStealMem_eq (f : Bytes → Bytes) (bs : Nat) (hbs : 0 < bs) (hf : ∀ x, x.length = bs → (f x).length = bs)
+    (io io1 : IOBuf) (hw : WF io) (hge : bs ≤ io.len)
+    (outs : List Bytes) (houts : ∀ b ∈ outs, b.length = bs) (hol : outs.length = io.len / bs)
+    (ha : After io io1 (io.len / bs) bs outs.flatten) (htl : io.len % bs ≠ 0) :
+    ∃ io2, ecbStealMem f io1 bs (io.len / bs) (io.len % bs) = some io2 ∧
+      io2.out = outs.dropLast.flatten ++ f (chunksTail bs (src io) ++ (outs.getLastD []).drop (io.len % bs))
+                  ++ (outs.getLastD []).take (io.len % bs) := by
+  have hL := len_split io.len bs
+  have hk := k_pos io.len bs hbs hge
+  have hmod := Nat.mod_lt io.len hbs
+  have holen : io.out.length = io.len := rfl
+  obtain ⟨ht1, ht2⟩ := tail_whole io hw bs hbs
+  rw [← hol] at ha
+  obtain ⟨hout1, hA, hB, hkb⟩ := last_block_after io io1 bs outs houts (by omega) ha
+  rw [hol] at ha hout1 hA hkb
+  have hX : (io.out.drop (io.len / bs * bs)).length = io.len % bs := by simp; omega
+  unfold ecbStealMem
+  simp only [sub?_eq _ _ hk]
+  rw [getOut?_eq io1 _ _ (by rw [ha.len]; omega)]
+  dsimp only
+  rw [hout1, rng_mid _ _ _ _ _ hA.symm hB.symm]
+  rw [padFromTail_eq io io1 hw bs hbs _ _ ha (Nat.le_refl _)]
+  dsimp only
+  obtain ⟨hs1, hs2⟩ := build_block bs (chunksTail bs (src io)) (outs.getLastD []) (by omega) hB
+  rw [ht2] at hs1 hs2
+  rw [hs1]; try dsimp only
+  rw [hs2]; try dsimp only
+  have hbl : (f (chunksTail bs (src io) ++ (outs.getLastD []).drop (io.len % bs))).length = bs :=
+    hf _ (by rw [List.length_append, List.length_drop, ht2, hB]; omega)
+  simp only [slice?_eq _ 0 (io.len % bs) (Nat.zero_le _) (by rw [hB]; omega), List.drop_zero, Nat.sub_zero]
+  rw [setOut?_eq io1 _ _ _ (by rw [ha.len]; omega) (by rw [List.length_take, hB]; omega)]
+  try dsimp only
+  have hl2 : (io1.setOut (io.len / bs * bs) ((outs.getLastD []).take (io.len % bs))).len = io.len := by
+    rw [setOut_len _ _ _ (by rw [ha.len, List.length_take, hB]; omega), ha.len]
+  rw [setOut?_eq _ _ _ _ (by rw [hl2]; omega) hbl]
+  refine ⟨_, rfl, ?_⟩
+  simp only [IOBuf.setOut, hout1]
+  have e1 : outs.dropLast.flatten ++ outs.getLastD [] ++ io.out.drop (io.len / bs * bs)
+      = (outs.dropLast.flatten ++ outs.getLastD []) ++ io.out.drop (io.len / bs * bs) ++ [] := by simp
+  rw [e1, setRng_mid _ _ _ _ _ (by rw [List.length_append, hA, hB]; omega) (by rw [List.length_take, hB, hX]; omega)]
+  have e2 : outs.dropLast.flatten ++ outs.getLastD [] ++ (outs.getLastD []).take (io.len % bs) ++ []
+      = outs.dropLast.flatten ++ outs.getLastD [] ++ (outs.getLastD []).take (io.len % bs) := by simp
+  rw [e2, setRng_mid _ _ _ _ _ hA.symm (by rw [hbl, hB])]
+
+theorem ecbCs2_ok (f : Bytes → Bytes) (bs : Nat) (hbs : 0 < bs) (hf : ∀ x, x.length = bs → (f x).length = bs)
+    (w : Nat) (io : IOBuf) (hw : WF io) (hge : bs ≤ io.len) :
+    ∃ io', MemCts.ecbCs2 f w bs io = some io' ∧
+      io'.out = (if (chunksTail bs (src io)).length = 0 then ((chunks bs (src io)).map f).flatten
+        else ((chunks bs (src io)).map f).dropLast.flatten
+          ++ f (chunksTail bs (src io) ++ (((chunks bs (src io)).map f).getLastD []).drop (chunksTail bs (src io)).length)
+          ++ (((chunks bs (src io)).map f).getLastD []).take (chunksTail bs (src io)).length) := by
+  have hL := len_split io.len bs
+  have hol : io.out.length = io.len := rfl
+  have hsl := src_length io hw
+  obtain ⟨ht1, ht2⟩ := tail_whole io hw bs hbs
+  have hcl : (chunks bs (src io)).length = io.len / bs := by rw [chunks_length bs hbs, hsl]
+  obtain ⟨io1, h1, ha⟩ := ecb_main f bs hbs hf w (io.len / bs) io hw (Nat.le_refl _)
+  rw [← hcl, List.take_length, hcl] at ha
+  unfold MemCts.ecbCs2
+  simp only [h1, ht2]
+  by_cases htl : io.len % bs = 0
+  · simp only [htl, if_true]
+    refine ⟨io1, rfl, ?_⟩
+    rw [ha.out, List.drop_of_length_le (by omega), List.append_nil]
+  · simp only [htl, if_false]
+    have hall : ∀ b ∈ (chunks bs (src io)).map f, b.length = bs := by
+      intro b hb
+      simp only [List.mem_map] at hb
+      obtain ⟨x, hx, rfl⟩ := hb
+      exact hf x (chunks_allLen bs hbs _ x hx)
+    exact ecbStealMem_eq f bs hbs hf io io1 hw hge _ hall (by rw [List.length_map, hcl]) ha htl
+
+theorem ecbCs3_ok (f : Bytes → Bytes) (bs : Nat) (hbs : 0 < bs) (hf : ∀ x, x.length = bs → (f x).length = bs)
+    (w : Nat) (io : IOBuf) (hw : WF io) (hge : bs ≤ io.len) :
+    ∃ io', MemCts.ecbCs3 f w bs io = some io' ∧
+      io'.out = (if (chunksTail bs (src io)).length = 0 then
+          (if (chunks bs (src io)).length > 1 then (swapLast2 ((chunks bs (src io)).map f)).flatten
+           else ((chunks bs (src io)).map f).flatten)
+        else ((chunks bs (src io)).map f).dropLast.flatten
+          ++ f (chunksTail bs (src io) ++ (((chunks bs (src io)).map f).getLastD []).drop (chunksTail bs (src io)).length)
+          ++ (((chunks bs (src io)).map f).getLastD []).take (chunksTail bs (src io)).length) := by
+  have hL := len_split io.len bs
+  have hol : io.out.length = io.len := rfl
+  have hsl := src_length io hw
+  obtain ⟨ht1, ht2⟩ := tail_whole io hw bs hbs
+  have hcl : (chunks bs (src io)).length = io.len / bs := by rw [chunks_length bs hbs, hsl]
+  obtain ⟨io1, h1, ha⟩ := ecb_main f bs hbs hf w (io.len / bs) io hw (Nat.le_refl _)
+  rw [← hcl, List.take_length, hcl] at ha
+  have hall : ∀ b ∈ (chunks bs (src io)).map f, b.length = bs := by
+    intro b hb
+    simp only [List.mem_map] at hb
+    obtain ⟨x, hx, rfl⟩ := hb
+    exact hf x (chunks_allLen bs hbs _ x hx)
+  unfold MemCts.ecbCs3
+  simp only [h1, ht2, hcl]
+  by_cases htl : io.len % bs = 0
+  · simp only [htl, if_true]
+    have hout1 : io1.out = ((chunks bs (src io)).map f).flatten := by
+      rw [ha.out, List.drop_of_length_le (by omega), List.append_nil]
+    by_cases hk1 : io.len / bs > 1
+    · simp only [hk1, if_true]
+      have := swapLast2Mem_eq io1 bs _ hall (by rw [List.length_map, hcl]; omega) hout1
+      rw [List.length_map, hcl] at this
+      exact this
+    · simp only [hk1, if_false]
+      exact ⟨io1, rfl, hout1⟩
+  · simp only [htl, if_false]
+    exact ecbStealMem_eq f bs hbs hf io io1 hw hge _ hall (by rw [List.length_map, hcl]) ha htl
 
 end Impl.MemCts
